@@ -8,7 +8,10 @@ import (
 	"context"
 	"errors"
 	"fmt"
+	"runtime"
+	"sync"
 	"sync/atomic"
+	"time"
 
 	"github.com/tikv/client-go/v2/kv"
 	"github.com/tikv/client-go/v2/verifh/vrep"
@@ -47,6 +50,9 @@ type c20Step struct {
 type c20Stats struct {
 	sleeps, zeroSleeps, cut, exhaust, exhaustMerged, exhaustFork, exhaustExcl, cancelHit, killHit int
 	forks, clones, merges, resets, kindChecks, skipped                                            int
+	setctxs                                                                                       int
+	endedBy                                                                                       map[string]int // cancel hits by how / where the context ended
+	unsettled                                                                                     bool
 	violated                                                                                      bool
 	trace                                                                                         []c20Step
 }
@@ -58,7 +64,8 @@ type c20Run struct {
 	wb     bool
 	shape  *c20Shape
 	hs     []*c20Handle
-	cancel []context.CancelFunc // per ctx node
+	ctxs   []context.Context // per ctx node
+	cancel []func()          // per ctx node: ends it the way its mode says
 	killed *uint32
 	weight int
 	st     c20Stats
@@ -98,7 +105,7 @@ func (x *c20Run) limitOf(k *c20Kind) int {
 
 // c20Execute runs one program against the real code and judges every step.
 func c20Execute(r *vrep.Report, p *c20Prog, kinds map[string]*c20Kind, wb bool) (st c20Stats) {
-	x := &c20Run{r: r, p: p, kinds: kinds, wb: wb, shape: c20NewShape()}
+	x := &c20Run{r: r, p: p, kinds: kinds, wb: wb, shape: c20NewShape(p.RootCtx)}
 	defer func() {
 		for _, c := range x.cancel {
 			c()
@@ -119,7 +126,9 @@ func c20Execute(r *vrep.Report, p *c20Prog, kinds map[string]*c20Kind, wb bool) 
 			}
 		}
 	}
-	ctx, cancel := context.WithCancel(context.Background())
+	x.st.endedBy = map[string]int{}
+	ctx, cancel := c20MakeCtx(context.Background(), x.shape.ctxMode[0])
+	x.ctxs = append(x.ctxs, ctx)
 	x.cancel = append(x.cancel, cancel)
 	var root *Backoffer
 	var lo, hi int
@@ -167,8 +176,17 @@ func c20Execute(r *vrep.Report, p *c20Prog, kinds map[string]*c20Kind, wb bool) 
 		case "reset", "resetmax":
 			x.reset(o)
 		case "cancel":
-			x.cancel[x.shape.nodes[o.H].ctx]()
+			x.cancel[x.shape.ctxUp(o.H, o.Up)]()
 			x.shape.apply(o)
+			x.settle()
+		case "setctx":
+			nctx, end := c20MakeCtx(x.hs[o.H].bo.GetCtx(), o.Mode)
+			x.hs[o.H].bo.SetCtx(nctx)
+			x.ctxs = append(x.ctxs, nctx)
+			x.cancel = append(x.cancel, end)
+			x.shape.apply(o)
+			x.st.setctxs++
+			x.settle()
 		case "kill":
 			if x.killed != nil {
 				atomic.StoreUint32(x.killed, 1+uint32(i%3))
@@ -178,7 +196,7 @@ func c20Execute(r *vrep.Report, p *c20Prog, kinds map[string]*c20Kind, wb bool) 
 				atomic.StoreUint32(x.killed, 0)
 			}
 		}
-		if x.st.violated {
+		if x.st.violated || x.st.unsettled {
 			return
 		}
 		x.othersUnchanged(o)
@@ -264,10 +282,18 @@ func (x *c20Run) backoff(o c20Op) {
 	// (B) cancelled context: stops at once, no sleep recorded
 	if cancelled {
 		x.st.cancelHit++
+		mode, own := x.shape.endedBy(o.H)
+		how := mode + "/ancestor"
+		if own {
+			how = mode + "/own"
+		}
+		x.st.endedBy[mode]++
+		x.st.endedBy[how[len(mode)+1:]]++
+		x.st.endedBy["on-"+x.shape.nodes[o.H].role]++
 		if e == nil {
-			x.violate("cancel:no-error:"+o.Op, "%s on h%d (%s) with a cancelled context returned nil", o, o.H, where)
+			x.violate("cancel:no-error:"+o.Op, "%s on h%d (%s) returned nil although its context had ended before the call (ended by: %s, ctx.Err()=%v)", o, o.H, where, how, hd.bo.GetCtx().Err())
 		} else if d != 0 {
-			x.violate("cancel:sleep-recorded:"+o.Op, "%s on h%d (%s) with a cancelled context recorded %d ms of sleep", o, o.H, where, d)
+			x.violate("cancel:sleep-recorded:"+o.Op, "%s on h%d (%s) recorded %d ms of sleep although its context had ended before the call (ended by: %s)", o, o.H, where, d, how)
 		}
 		x.sync(ref, k, total, d, ks, kt)
 		return
@@ -427,13 +453,15 @@ func (x *c20Run) forkClone(o c20Op) {
 	if o.Op == "fork" {
 		var c context.CancelFunc
 		nb, c = src.bo.Fork()
-		x.cancel = append(x.cancel, c)
+		x.ctxs = append(x.ctxs, nb.GetCtx())
+		x.cancel = append(x.cancel, func() { c() })
 		x.st.forks++
 	} else {
 		nb = src.bo.Clone()
 		x.st.clones++
 	}
 	x.shape.apply(o)
+	x.settle()
 	x.r.Eval(1)
 	nh := &c20Handle{bo: nb, ref: src.ref.clone()}
 	x.hs = append(x.hs, nh)
@@ -517,4 +545,88 @@ func (x *c20Run) reset(o c20Op) {
 	// Reset keeps the per-kind statistics by design; the statement does not say, so take what is there
 	hd.ref.kindSleep = c20CopyMap(hd.bo.GetBackoffSleepMS())
 	hd.ref.kindTimes = c20CopyMap(hd.bo.GetBackoffTimes())
+}
+
+// ---------------------------------------------------------------- contexts
+
+// c20MakeCtx derives a context from parent and returns the function that ends
+// it the way `mode` says.
+func c20MakeCtx(parent context.Context, mode string) (context.Context, func()) {
+	switch mode {
+	case "cause":
+		c, cancel := context.WithCancelCause(parent)
+		return c, func() { cancel(errors.New("c20 cancel cause")) }
+	case "deadline":
+		c := &c20EndCtx{parent: parent, done: make(chan struct{})}
+		go func() {
+			select {
+			case <-parent.Done():
+				c.finish(parent.Err())
+			case <-c.done:
+			}
+		}()
+		return c, func() { c.finish(context.DeadlineExceeded) }
+	case "expired":
+		c, cancel := context.WithDeadline(parent, time.Unix(1, 0))
+		return c, func() { cancel() }
+	}
+	c, cancel := context.WithCancel(parent)
+	return c, func() { cancel() }
+}
+
+// c20EndCtx is a context that ends when the driver says so, the way a deadline
+// ends one: Done() is closed and Err() is context.DeadlineExceeded.  (A real
+// timer context cannot be made to expire at an exact step of a program.)
+type c20EndCtx struct {
+	parent context.Context
+	done   chan struct{}
+	mu     sync.Mutex
+	err    error
+}
+
+func (c *c20EndCtx) finish(err error) {
+	c.mu.Lock()
+	if c.err == nil {
+		c.err = err
+		close(c.done)
+	}
+	c.mu.Unlock()
+}
+func (c *c20EndCtx) Deadline() (time.Time, bool) { return c.parent.Deadline() }
+func (c *c20EndCtx) Done() <-chan struct{}       { return c.done }
+func (c *c20EndCtx) Value(k any) any             { return c.parent.Value(k) }
+func (c *c20EndCtx) Err() error {
+	c.mu.Lock()
+	defer c.mu.Unlock()
+	return c.err
+}
+
+// settle waits until every context that the driver's bookkeeping says has ended
+// (itself or through an ancestor) really reports it: the standard library
+// propagates the end of a non-standard parent from another goroutine.  A
+// synchronisation barrier, not an oracle; if it does not settle the program is
+// abandoned as inconclusive.
+func (x *c20Run) settle() {
+	for n := range x.ctxs {
+		ended := false
+		for c := n; c >= 0; c = x.shape.ctxParent[c] {
+			if x.shape.ctxCancelled[c] {
+				ended = true
+			}
+		}
+		if !ended {
+			continue
+		}
+		for i := 0; x.ctxs[n].Err() == nil; i++ {
+			runtime.Gosched()
+			if i > 100000 {
+				time.Sleep(time.Millisecond)
+			}
+			if i > 110000 {
+				x.st.unsettled = true
+				x.r.Inconc("context node %d of %s did not report its end within 10 s", n, x.p.shapeString())
+				return
+			}
+		}
+	}
 }
